@@ -30,14 +30,14 @@ def run_driver(lines):
             r = subprocess.run(driver_cmd(), stdin=fin, capture_output=True, text=True, cwd=LEAN_DIR, timeout=3600)
     finally:
         os.unlink(path)
-    outs = [json.loads(l) for l in r.stdout.splitlines() if l.startswith('{')]
+    outs = [json.loads(l) for l in r.stdout.split('\n') if l.startswith('{')]   # not splitlines(): \x85, \u2028 are data
     if len(outs) != len(lines):
         raise RuntimeError(f'driver returned {len(outs)} lines for {len(lines)} inputs; stderr: {r.stderr[-2000:]}')
     return outs
 
 
 def model_line(scen):
-    keys = ('id', 'env', 'op', 'ty', 'val', 'handlers', 'name', 'style', 'tys', 'args', 'kwargs', 'cls', 'decls', 'obj', 'set', 'set_only', 'rename', 'frozen', 'deep', 'a', 'b', 'akey', 'bkey', 'explicit_hash', 'eq_opt', 'order_opt', 'ops', 'maxsize', 'keys', 'is_path', 'how', 'mutate', 'explicit_eq', 'shapes')
+    keys = ('id', 'env', 'op', 'ty', 'val', 'handlers', 'name', 'style', 'tys', 'args', 'kwargs', 'cls', 'decls', 'obj', 'set', 'set_only', 'rename', 'frozen', 'deep', 'a', 'b', 'akey', 'bkey', 'explicit_hash', 'eq_opt', 'order_opt', 'ops', 'maxsize', 'keys', 'is_path', 'how', 'mutate', 'explicit_eq', 'shapes', 'partial')
     return json.dumps({k: scen[k] for k in keys if k in scen}, ensure_ascii=False)
 
 
